@@ -574,6 +574,15 @@ def programs(draw, profile="discrete", uninit_ok=True, min_body=1, max_body=4):
             rhs = ["draw", "Laplace", [loc, L.num(c.pick([1, 2, "1/2"]))]]
         body.insert(c.integer(0, len(body)), ["assign", "g", rhs])
         locdraw = True
+    lag = False
+    if not c.lincyc and c.b(0.2):
+        # a value handed down a chain of copies before it is accumulated (ls = ls + la; la = lb; lb = ...): the closed form of ls is a sum
+        # over closed forms that are valid from different iterations on
+        srcs = [["expr", ["add", L.var("lb"), L.num(1)]], ["choice", [L.num(1), L.num(3)], [L.num("1/2")]], ["expr", ["mul", L.num(2), L.var("lb")]]]
+        srcs += [["expr", L.var(v)] for v in list(c.fin)[:1] + c.drw[:1]]
+        chain = [["assign", "ls", ["expr", ["add", L.var("ls"), L.var("la")]]], ["assign", "la", ["expr", L.var("lb")]], ["assign", "lb", c.pick(srcs)]]
+        body = body + chain if c.b(0.7) else chain + body
+        lag = True
     if c.big:
         # the dice are thrown at the start of the iteration, conditions look at their sum
         for f, D in c.fin.items():
@@ -609,6 +618,8 @@ def programs(draw, profile="discrete", uninit_ok=True, min_body=1, max_body=4):
         init.append(["assign", "k", ["expr", L.num(0)]])
     if locdraw:
         init.append(["assign", "g", ["expr", L.num(0)]])
+    if lag:
+        init += [["assign", "ls", ["expr", L.num(0)]], ["assign", "la", ["expr", L.num(c.pick([2, 5, -1]))]], ["assign", "lb", ["expr", L.num(c.pick([3, -2, 1]))]]]
     if shadow is not None:
         iv = [st_ for st_ in init if st_[0] == "assign" and st_[1] == shadow and st_[2][0] == "expr" and st_[2][1][0] == "num"]
         init.append(["assign", "h", ["expr", iv[0][2][1] if iv else L.num(0)]])
@@ -626,6 +637,8 @@ def goals_for(draw, prog, meta, max_goals=3, maxdeg=3):
     out = []
     if "k" in pool and draw(st.integers(0, 2)) > 0:
         out.append({"k": 1})  # the counter of the directed templates observes which branches ran
+    if "ls" in pool and draw(st.integers(0, 2)) > 0:
+        out.append({"ls": 1})  # the accumulator at the end of a chain of copies
     for _ in range(k):
         deg = draw(st.integers(1, maxdeg))
         mono = {}
